@@ -22,7 +22,7 @@ SeqToSet(s) == {s[j] : j \in DOMAIN s}
 \* defective feeders either defect may decide)
 Allowed(E) ==
     LET n == Len(E)
-        parseBad == \E j \in 1..n : E[j].key = "bad" \/ E[j].feeder = "unknown"
+        parseBad == \E j \in 1..n : E[j].key \in {"bad", "stalehash"} \/ E[j].feeder = "unknown"
         dup == \E j, k \in 1..n : j # k /\ E[j].origin = E[k].origin
         fed == {j \in 1..n : E[j].feeder # "none"}
         panics == {j \in fed : SchemePanics /\ E[j].feeder = "serverless" /\ E[j].url = "badscheme"}
